@@ -10,7 +10,7 @@ from .boot import VERIF_DIR, HarnessError
 from .decider import Decider, derive_seed
 
 PLAN = {   # (batches, runs per batch)
-    'quick': {'C02': (16, 100), 'C17': (16, 80)},
+    'quick': {'C02': (16, 100), 'C17': (16, 60)},
     'thorough': {'C02': (96, 200), 'C17': (96, 200)},
 }
 N_GOLDEN_JOBS = 16
@@ -483,7 +483,7 @@ def run_check(prop, tier, seed, workers, batches=None, runs=None, do_minimise=Tr
         orch.cleanup(scratch)
 
 
-SUM_KEYS = ('runs', 'ops', 'steps', 'switches', 'barrier_hits', 'dirty_hits', 'double_ctor', 'capped', 'clock_reads_in_explicit_calls',
+SUM_KEYS = ('runs', 'ops', 'steps', 'switches', 'barrier_hits', 'dirty_hits', 'sweeps', 'double_ctor', 'capped', 'clock_reads_in_explicit_calls',
             'cold_runs', 'restarts', 'faulted_ops', 'checked_ops', 'swallowed_abort')
 DICT_KEYS = ('faults', 'known', 'sites', 'barrier_sites', 'ctor', 'placements', 'threads', 'sched_kinds', 'culture_classes',
              'get_outcomes')
@@ -538,7 +538,7 @@ def write_ev(prop, tier, seed, agg, wall, nviol, jobs):
                    'write_barrier_classes_interposed': agg['barrier_classes'],
                    'constructions_per_key': agg['ctor'], 'runs_with_double_construction': agg['double_ctor'],
                    'clock_reads_during_explicit_reference_calls': agg['clock_reads_in_explicit_calls'],
-                   'cold_start_runs': agg['cold_runs'], 'restarts': agg['restarts'], 'step_capped_runs': agg['capped'],
+                   'cold_start_runs': agg['cold_runs'], 'fault_sweep_runs': agg['sweeps'], 'restarts': agg['restarts'], 'step_capped_runs': agg['capped'],
                    'swallowed_faults': agg['swallowed_abort'], 'thread_placements': agg['placements'],
                    'clients_per_run': agg['threads'], 'scheduler_kinds': agg['sched_kinds'],
                    'golden_disagreements': agg.get('golden_disagreements', 0),
